@@ -31,7 +31,9 @@ called, the stop flags of the per-worker results, and whether every thread ended
                    (started, not joined) was told to stop - stream: its result's `shouldStop` is set; suite: `stop()`
                    reached the target once per registered worker (or the `stop()` itself raised) - and on
                    normal return nobody was told to stop;
-* `terminates`     `run()` ended and every started thread ended (no deadlock). -/
+* `terminates`     `run()` ended and every started thread ended (no deadlock).
+
+A HISTORY of 1..3 `run()` calls on one suite object (`clausesH`): all of the above for every run, each by itself. -/
 namespace TTV.Spec.C13
 open TTV.Conc
 
@@ -183,5 +185,12 @@ def clauses : List (String × (SInput → STrace → Bool)) :=
    ("broken-runner", cBrokenRunner), ("abort", cAbort), ("terminates", cTerminates)]
 
 def holds (i : SInput) (t : STrace) : Bool := clauses.all fun c => c.2 i t
+
+/-- a history of `run()` calls on one suite object: every clause is demanded of EVERY run of the history, each judged by itself -
+what an earlier run did (returned, or was aborted with workers still alive) is no excuse and no help -/
+def clausesH : List (String × (HInput → HTrace → Bool)) :=
+  clauses.map fun c => (c.1, fun h t => h.length == t.length && (h.zip t).all fun p => c.2 p.1 p.2)
+
+def holdsH (h : HInput) (t : HTrace) : Bool := clausesH.all fun c => c.2 h t
 
 end TTV.Spec.C13
